@@ -36,8 +36,8 @@ NOTES = ("Extraction is cross-checked: for C01/C12/C13/C14/C15/C17 and all optim
          "compared there with the implementation's recorded values.  Thorough tier: coqchk re-checks the compiled theorems.  "
          "The crate's numeric formulas (acceptance rule, cooling factor, clamp/sample, LJ energy, pair predicates, cell area, "
          "lens area, shell count, score) are re-translated from the source text on every run (bin/rs2coq.py -> gen/GenFns.v) and "
-         "proved equal to the model's definitions (proofs/SourceFacts.v); so are whole functions and loop bodies: "
-         "check_intersection, PotentialState::score, periodic_images, positions (proofs/SearchFacts.v) and the body of "
+         "proved equal to the model's definitions (proofs/SrcOpt.v, SrcShapes.v, SrcCell.v, SrcState.v, SrcOrder.v - one file per area of the source, so that a change to one area only touches the properties that pin it); so are whole functions and loop bodies: "
+         "check_intersection, PotentialState::score, periodic_images, positions (SrcState.v, SrcCell.v) and the body of "
          "optimise_state's inner loop, the tail of its outer loop, its start and its final assertion "
          "(mc_step_is_source, end_loop_is_source, init_is_source, final_assert_is_source).  "
          "Every claimed check = (1) proof gate: full coqc build of coq/props/<id>.v and its dependencies, Print "
